@@ -25,10 +25,19 @@ ASSUMPTIONS = ["statistical quality of `random` and of the PRP is not examined"]
 SORTED_SCHEMES = {"CJJ14.PiBas", "CJJ14.PiPack", "CJJ14.PiPtr", "CJJ14.Pi2Lev", "CT14.Pi", "ANSS16.Scheme3"}
 
 
-def _first_component_key(node):
-    """key=lambda p: p[0] / operator.itemgetter(0) / None"""
+def _first_component_key(node, fi=None):
+    """key=lambda p: p[0] / operator.itemgetter(0) / a named function returning its argument's first component / None"""
     if node is None:
         return True
+    if isinstance(node, ast.Name) and fi is not None:
+        g = fi.module.functions.get(node.id) or getattr(fi, "nested", {}).get(node.id)
+        if g is not None and len(g.params) == 1:
+            body = [st for st in g.node.body if not (isinstance(st, ast.Expr) and isinstance(st.value, ast.Constant))]
+            if len(body) == 1 and isinstance(body[0], ast.Return):
+                b = body[0].value
+                return isinstance(b, ast.Subscript) and isinstance(b.value, ast.Name) and b.value.id == g.params[0] and \
+                    isinstance(b.slice, ast.Constant) and b.slice.value == 0
+        return False
     if isinstance(node, ast.Lambda) and len(node.args.args) == 1:
         b = node.body
         return isinstance(b, ast.Subscript) and isinstance(b.value, ast.Name) and b.value.id == node.args.args[0].arg and \
@@ -55,13 +64,13 @@ def check_builder(repo, rule, fi):
         for c in calls_in_order(n.stmt if n.kind != "test" else n.ast):
             if isinstance(c.func, ast.Attribute) and c.func.attr == "sort" and isinstance(c.func.value, ast.Name) and c.func.value.id == lst:
                 key = next((k.value for k in c.keywords if k.arg == "key"), None)
-                if _first_component_key(key):
+                if _first_component_key(key, fi):
                     sort_nodes.setdefault(lst, set()).add(n.id)
                 else:
                     rule.fail_fn(fi, c, "sort key", "%s sorts the pairs by something other than the label: %s" % (fi.qual, short(c)))
             if isinstance(c.func, ast.Name) and c.func.id == "sorted" and c.args and isinstance(c.args[0], ast.Name) and c.args[0].id == lst:
                 key = next((k.value for k in c.keywords if k.arg == "key"), None)
-                if _first_component_key(key):
+                if _first_component_key(key, fi):
                     st = n.stmt
                     if isinstance(st, ast.Assign) and len(st.targets) == 1 and isinstance(st.targets[0], ast.Name):
                         sort_nodes.setdefault(st.targets[0].id, set()).add(n.id)
@@ -84,8 +93,21 @@ def check_builder(repo, rule, fi):
             if src is None:
                 continue
             inline_sorted = isinstance(src, ast.Call) and isinstance(src.func, ast.Name) and src.func.id == "sorted" and \
-                _first_component_key(next((k.value for k in src.keywords if k.arg == "key"), None))
+                _first_component_key(next((k.value for k in src.keywords if k.arg == "key"), None), fi)
             builds.append((n, x, src, inline_sorted))
+    # explicit loop:  for k, v in <pairs>: D[k] = v
+    for n in cfg.nodes:
+        if n.kind == "for" and isinstance(n.stmt.target, (ast.Tuple, ast.List)) and len(n.stmt.target.elts) == 2 and \
+                all(isinstance(e, ast.Name) for e in n.stmt.target.elts):
+            kname, vname = (e.id for e in n.stmt.target.elts)
+            stores = [x for b in n.stmt.body for x in ast.walk(b) if isinstance(x, ast.Assign) and len(x.targets) == 1 and
+                      isinstance(x.targets[0], ast.Subscript) and isinstance(x.targets[0].slice, ast.Name) and x.targets[0].slice.id == kname and
+                      isinstance(x.value, ast.Name) and x.value.id == vname]
+            if stores:
+                src = n.stmt.iter
+                inline_sorted = isinstance(src, ast.Call) and isinstance(src.func, ast.Name) and src.func.id == "sorted" and \
+                    _first_component_key(next((k.value for k in src.keywords if k.arg == "key"), None), fi)
+                builds.append((n, n.stmt, src, inline_sorted))
     if not builds:
         rule.fail_fn(fi, fi.node, "builder builds no dict", "%s no longer builds the table from the pair list" % fi.qual)
         return
